@@ -59,6 +59,10 @@ def gen_history(rng, maxlen):
             pathv = rel if td != lay.home_trash else '/was/' + nm
             nodes += scen.entry(td, nm, pathv, '2023-12-%02dT10:00:00' % (10 + k0), 'f')
             initial.append(('2023-12-%02d 10:00:00' % (10 + k0), os.path.join(vol, rel) if td != lay.home_trash else '/was/' + nm))
+    if rng.random() < 0.4:
+        # an entry dated in the future (a clock that was set back): 'trash-empty 0' keeps it, it is not older than now
+        nodes += scen.entry(lay.home_trash, 'future', '/was/future', '2099-01-01T00:00:00', 'f')
+        initial.append(('2099-01-01 00:00:00', '/was/future'))
     steps, plan = [{'cmd': 'list', 'argv': []}], [('init', initial)]
     t = datetime.datetime(2024, 1, 1, 0, 0, 0)
     for k in range(rng.randint(3, maxlen)):
